@@ -68,6 +68,11 @@ class C15(Prop):
         out.append(case('ks = []; foreach k, v in {"a": 1, "b": 2, "c": 3} { if (k == "a") { f = k; g = v; } } return [f, g];', [enc_value(["a", 1])] * 2, "loop-index-copy", runs=2))
         out.append(case("foreach i, v in [7, 8, 9] { if (i == 0) { e = v; } v++; } return e;", [enc_value(7)], "loop-index-copy"))
         out.append(case("foreach i, v in [7, 8, 9] { if (i == 1) { e = i; } i++; } return e;", [enc_value(1)], "loop-index-copy"))
+        # the legacy `$` prefix names the same variable (D44 repaired): ++ / -- / compound assignment through it change that variable
+        for src, want in [("x = 1; $x++; return [x, $x];", [2, 2]), ("$b = 1; $b += 4; return [$b, b];", [5, 5]), ("x = 70000; y = x; $x--; return [x, y];", [69999, 70000]),
+                          ("t = 0; foreach $v in [1, 2] { $v++; t = t + v; } return t;", 5), ("function f($p) { $p++; return $p + p; } a = 2; return [f(a), a];", [6, 2]),
+                          ("function g() { local $l; $l = 5; l++; return $l; } return g();", 6), ("$q = 1.5; $q *= 2; return q;", 3.0)]:
+            out.append(case(src, [enc_value(want)], "dollar-names"))
         # strings and booleans
         out.append(case('a = "x"; b = a; b += "y"; return [a, b];', [enc_value(["x", "xy"])], "string"))
         out.append(case('a = "x"; b = a; b = b + "y"; return [a, b, "x"];', [enc_value(["x", "xy", "x"])] * 2, "string", runs=2))
